@@ -38,6 +38,12 @@ type params struct {
 	ID any   `json:"id,omitempty"`
 }
 
+// badParams cannot be JSON-encoded: NewCall/NewNotification/NewResponse fail to marshal it.
+type badParams struct {
+	N int64    `json:"n"`
+	C chan int `json:"c"`
+}
+
 type result struct {
 	N    int64  `json:"n"`
 	ID   string `json:"id"`
@@ -366,7 +372,7 @@ func (ep *endpoint) handle(ctx context.Context, req *jsonrpc2.Request) (any, err
 
 func methodClass(m string) string {
 	switch m {
-	case "echo", "slow", "err", "nh", "async", "callback", "notifyback", "pre", "preasync", "cancel", "note", "hold":
+	case "echo", "slow", "err", "nh", "async", "callback", "notifyback", "pre", "preasync", "cancel", "note", "hold", "badres", "asyncbad":
 		return m
 	}
 	return "unknown"
@@ -394,11 +400,18 @@ func (ep *endpoint) dispatch(ctx context.Context, req *jsonrpc2.Request) (any, e
 		return nil, errBoom
 	case "nh":
 		return nil, jsonrpc2.ErrNotHandled
-	case "async", "preasync":
+	case "badres":
+		// a result that cannot be marshaled: processResult reports an internal error,
+		// writes no response, and must still finish the request
 		if !isCall {
 			return nil, nil
 		}
-		ep.startAsync(id, p, idStr)
+		return &badParams{N: p.N, C: make(chan int)}, nil
+	case "async", "preasync", "asyncbad":
+		if !isCall {
+			return nil, nil
+		}
+		ep.startAsync(id, p, idStr, req.Method == "asyncbad")
 		return nil, jsonrpc2.ErrAsyncResponse
 	case "callback":
 		cctx, cancel := context.WithTimeout(ctx, time.Duration(1+p.K%6)*time.Millisecond)
@@ -437,7 +450,7 @@ func (ep *endpoint) preempt(ctx context.Context, req *jsonrpc2.Request) (any, er
 }
 
 // startAsync starts the goroutine that calls Respond exactly once.
-func (ep *endpoint) startAsync(id jsonrpc2.ID, p params, idStr string) {
+func (ep *endpoint) startAsync(id jsonrpc2.ID, p params, idStr string, badResult bool) {
 	atomic.AddInt32(&ep.asyncPending, 1)
 	ep.sc.misc.add()
 	go func() {
@@ -453,7 +466,11 @@ func (ep *endpoint) startAsync(id jsonrpc2.ID, p params, idStr string) {
 		}
 		atomic.AddInt32(&ep.asyncPending, -1)
 		var err error
-		if (k>>8)%5 == 0 {
+		if badResult {
+			// Respond with an unmarshalable result: exactly one Respond, as the contract demands
+			err = ep.conn.Respond(id, &badParams{N: p.N, C: make(chan int)}, nil)
+			ep.sc.count("async_respond_badresult")
+		} else if (k>>8)%5 == 0 {
 			err = ep.conn.Respond(id, nil, errAsyncBoom)
 			ep.sc.count("async_respond_error")
 		} else {
@@ -466,17 +483,31 @@ func (ep *endpoint) startAsync(id jsonrpc2.ID, p params, idStr string) {
 	}()
 }
 
-func (ep *endpoint) newCall(ctx context.Context, method string, k int) *callRec {
+func (ep *endpoint) newCall(ctx context.Context, method string, k int, bad ...bool) *callRec {
 	rec := &callRec{ep: ep, method: method, nonce: ep.sc.nextNonce()}
-	rec.ac = ep.conn.Call(ctx, method, &params{N: rec.nonce, K: k})
+	if len(bad) > 0 && bad[0] {
+		// params that cannot be marshaled: Call retires the call itself, nothing is registered
+		rec.ac = ep.conn.Call(ctx, method, &badParams{N: rec.nonce, C: make(chan int)})
+		ep.sc.count("op_call_badparams")
+	} else {
+		rec.ac = ep.conn.Call(ctx, method, &params{N: rec.nonce, K: k})
+	}
 	ep.mu.Lock()
 	ep.calls = append(ep.calls, rec)
 	ep.mu.Unlock()
 	return rec
 }
 
-func (ep *endpoint) notify(ctx context.Context, method string, k int, id any) {
-	err := ep.conn.Notify(ctx, method, &params{N: ep.sc.nextNonce(), K: k, ID: id})
+func (ep *endpoint) notify(ctx context.Context, method string, k int, id any, bad ...bool) {
+	var err error
+	if len(bad) > 0 && bad[0] {
+		// params that cannot be marshaled: Notify passes Notify#1, fails before c.write, and its
+		// deferred Notify#0 must still run
+		err = ep.conn.Notify(ctx, method, &badParams{N: ep.sc.nextNonce(), C: make(chan int)})
+		ep.sc.count("op_notify_badparams")
+	} else {
+		err = ep.conn.Notify(ctx, method, &params{N: ep.sc.nextNonce(), K: k, ID: id})
+	}
 	ep.sc.count("notify_" + classifyErr(err))
 }
 
@@ -496,6 +527,8 @@ func classifyErr(err error) string {
 		return "async-error"
 	case errors.Is(err, errRaw):
 		return "raw-error"
+	case err != nil && strings.Contains(err.Error(), "marshaling"):
+		return "marshal-error"
 	case errors.Is(err, jsonrpc2.ErrInternal):
 		return "internal"
 	case errors.Is(err, jsonrpc2.ErrUnknown):
@@ -568,7 +601,7 @@ func (rec *callRec) outcome(err error, res result) {
 	switch {
 	case res.N != rec.nonce || res.ID != own || res.Dup:
 		sc.fail("await-wrong-answer", fmt.Sprintf("conn=%s call id=%s method=%s nonce=%d got result n=%d id=%s dup=%v from=%s", rec.ep.name, own, rec.method, rec.nonce, res.N, res.ID, res.Dup, res.From))
-	case rec.method == "err" || rec.method == "nh":
+	case rec.method == "err" || rec.method == "nh" || rec.method == "badres" || rec.method == "asyncbad":
 		sc.fail("await-wrong-answer", fmt.Sprintf("conn=%s call id=%s method=%s was never answered successfully but Await returned %+v", rec.ep.name, own, rec.method, res))
 	}
 }
@@ -616,7 +649,7 @@ func (ep *endpoint) runClient(ops []op) {
 		switch o.kind {
 		case opCall:
 			cctx, ccancel := ep.makeCtx(o.ctx, 0)
-			rec := ep.newCall(cctx, o.method, o.k)
+			rec := ep.newCall(cctx, o.method, o.k, o.bad)
 			mine = append(mine, rec)
 			switch o.await {
 			case awTimeout:
@@ -656,7 +689,7 @@ func (ep *endpoint) runClient(ops []op) {
 			ccancel()
 		case opNotify:
 			cctx, ccancel := ep.makeCtx(o.ctx, 0)
-			ep.notify(cctx, o.method, o.k, nil)
+			ep.notify(cctx, o.method, o.k, nil, o.bad)
 			ccancel()
 		case opCancelNotify:
 			if len(mine) > 0 {
